@@ -341,3 +341,128 @@ pub open spec fn type_of_cat(c: int) -> MadeHandType {
     else if c == 2 { MadeHandType::TwoPair } else if c == 1 { MadeHandType::Pair }
     else { MadeHandType::HighCard }
 }
+
+// ---------- C11 (L11a): the class of a hand does not depend on how the suits are named ----------
+
+pub open spec fn relabel(cards: Seq<Card>, p: spec_fn(Suit) -> Suit) -> Seq<Card> {
+    cards.map_values(|c: Card| Card(c.0, p(c.1)))
+}
+
+/// p is a permutation of the four suits with inverse q
+pub open spec fn is_perm(p: spec_fn(Suit) -> Suit, q: spec_fn(Suit) -> Suit) -> bool {
+    (forall|s: Suit| #[trigger] q(p(s)) == s) && (forall|s: Suit| #[trigger] p(q(s)) == s)
+}
+
+pub proof fn lemma_relabel_counts(cards: Seq<Card>, p: spec_fn(Suit) -> Suit, q: spec_fn(Suit) -> Suit, s: Suit, r: int)
+    requires is_perm(p, q),
+    ensures
+        cnt_suit(relabel(cards, p), p(s)) == cnt_suit(cards, s),
+        cnt_card(relabel(cards, p), r, p(s)) == cnt_card(cards, r, s),
+        cnt_rank(relabel(cards, p), r) == cnt_rank(cards, r),
+    decreases cards.len()
+{
+    if cards.len() > 0 {
+        lemma_relabel_counts(cards.drop_last(), p, q, s, r);
+        assert(relabel(cards, p).drop_last() =~= relabel(cards.drop_last(), p));
+        let c = cards.last();
+        assert(relabel(cards, p).last() == Card(c.0, p(c.1)));
+        assert(p(c.1) == p(s) <==> c.1 == s) by { assert(q(p(c.1)) == c.1 && q(p(s)) == s); }
+    }
+}
+
+/// with five or more cards of suit s among seven, class7 is the best suited sub-hand of that suit
+pub proof fn lemma_class7_flush(cards: Seq<Card>, s: Suit)
+    requires cards.len() == 7, cnt_suit(cards, s) >= 5,
+    ensures class7(cards) == best_of(suit_mult(cards, s), true, cnt_suit(cards, s)),
+{
+    lemma_cnt_suit_total(cards);
+}
+
+pub proof fn lemma_class7_relabel(cards: Seq<Card>, p: spec_fn(Suit) -> Suit, q: spec_fn(Suit) -> Suit)
+    requires is_perm(p, q), cards.len() == 7,
+    ensures class7(relabel(cards, p)) == class7(cards),
+{
+    let rc = relabel(cards, p);
+    lemma_cnt_suit_total(cards);
+    lemma_cnt_suit_total(rc);
+    assert forall|s: Suit| cnt_suit(rc, p(s)) == cnt_suit(cards, s) by { lemma_relabel_counts(cards, p, q, s, 0); }
+    if exists|s: Suit| cnt_suit(cards, s) >= 5 {
+        let s = choose|s: Suit| cnt_suit(cards, s) >= 5;
+        lemma_class7_flush(cards, s);
+        lemma_class7_flush(rc, p(s));
+        assert(suit_mult(rc, p(s)) =~= suit_mult(cards, s)) by {
+            assert forall|r: int| 0 <= r < 13 implies suit_mult(rc, p(s))[r] == suit_mult(cards, s)[r] by {
+                lemma_relabel_counts(cards, p, q, s, r);
+            }
+        }
+    } else {
+        assert forall|t: Suit| cnt_suit(rc, t) < 5 by {
+            assert(p(q(t)) == t);
+            assert(cnt_suit(rc, p(q(t))) == cnt_suit(cards, q(t)));
+        }
+        assert(mult(rc) =~= mult(cards)) by {
+            assert forall|r: int| 0 <= r < 13 implies mult(rc)[r] == mult(cards)[r] by {
+                lemma_relabel_counts(cards, p, q, Suit::Spade, r);
+            }
+        }
+    }
+}
+
+/// the order of presentation does not matter either: class7 is a function of the multiset of cards
+/// (counts are symmetric); stated for a swap of two positions, which generates all 7! orders
+pub proof fn lemma_counts_swap(cards: Seq<Card>, i: int, j: int, s: Suit, r: int)
+    requires 0 <= i < j < cards.len(),
+    ensures
+        cnt_suit(cards.update(i, cards[j]).update(j, cards[i]), s) == cnt_suit(cards, s),
+        cnt_card(cards.update(i, cards[j]).update(j, cards[i]), r, s) == cnt_card(cards, r, s),
+        cnt_rank(cards.update(i, cards[j]).update(j, cards[i]), r) == cnt_rank(cards, r),
+    decreases cards.len()
+{
+    let sw = cards.update(i, cards[j]).update(j, cards[i]);
+    if j == cards.len() - 1 {
+        // peel the last element of both; the prefixes differ in position i only
+        lemma_counts_update(cards.drop_last(), i, cards[j], s, r);
+        assert(sw.drop_last() =~= cards.drop_last().update(i, cards[j]));
+        assert(sw.last() == cards[i]);
+    } else {
+        lemma_counts_swap(cards.drop_last(), i, j, s, r);
+        assert(sw.drop_last() =~= cards.drop_last().update(i, cards[j]).update(j, cards[i]));
+        assert(sw.last() == cards.last());
+    }
+}
+
+pub open spec fn ind_suit(c: Card, s: Suit) -> int { if c.1 == s { 1 } else { 0 } }
+pub open spec fn ind_card(c: Card, r: int, s: Suit) -> int { if rank_code(c.0) == r && c.1 == s { 1 } else { 0 } }
+pub open spec fn ind_rank(c: Card, r: int) -> int { if rank_code(c.0) == r { 1 } else { 0 } }
+
+pub proof fn lemma_counts_update(cards: Seq<Card>, i: int, c: Card, s: Suit, r: int)
+    requires 0 <= i < cards.len(),
+    ensures
+        cnt_suit(cards.update(i, c), s) == cnt_suit(cards, s) - ind_suit(cards[i], s) + ind_suit(c, s),
+        cnt_card(cards.update(i, c), r, s) == cnt_card(cards, r, s) - ind_card(cards[i], r, s) + ind_card(c, r, s),
+        cnt_rank(cards.update(i, c), r) == cnt_rank(cards, r) - ind_rank(cards[i], r) + ind_rank(c, r),
+    decreases cards.len()
+{
+    let u = cards.update(i, c);
+    if i == cards.len() - 1 {
+        assert(u.drop_last() =~= cards.drop_last());
+    } else {
+        lemma_counts_update(cards.drop_last(), i, c, s, r);
+        assert(u.drop_last() =~= cards.drop_last().update(i, c));
+        assert(u.last() == cards.last());
+    }
+}
+
+pub proof fn lemma_class7_swap(cards: Seq<Card>, i: int, j: int)
+    requires 0 <= i < j < cards.len(), cards.len() == 7,
+    ensures class7(cards.update(i, cards[j]).update(j, cards[i])) == class7(cards),
+{
+    let sw = cards.update(i, cards[j]).update(j, cards[i]);
+    assert forall|s: Suit| cnt_suit(sw, s) == cnt_suit(cards, s) && suit_mult(sw, s) =~= suit_mult(cards, s) by {
+        lemma_counts_swap(cards, i, j, s, 0);
+        assert forall|r: int| 0 <= r < 13 implies suit_mult(sw, s)[r] == suit_mult(cards, s)[r] by { lemma_counts_swap(cards, i, j, s, r); }
+    }
+    assert(mult(sw) =~= mult(cards)) by {
+        assert forall|r: int| 0 <= r < 13 implies mult(sw)[r] == mult(cards)[r] by { lemma_counts_swap(cards, i, j, Suit::Spade, r); }
+    }
+}
